@@ -156,3 +156,61 @@ package zygo
 
 //@ func IntegerDo
 //@ C07 ensures mod: op == Modulo && old(typeis(a, *SexpInt) && typeis(b, *SexpInt)) ==> r1 == nil && intRes(r0, old(a.(*SexpInt).Val) % old(b.(*SexpInt).Val))
+
+// ===========================================================================
+// Stack (stack.go): representation invariant used by C01, C03, C04, C05, C15
+// ===========================================================================
+//@ macro wfs(s *Stack) bool = s != nil && s.tos == len(s.elements) - 1
+
+//@ func (*Zlisp).NewStack
+//@ C01,C15,C19 pure
+//@ C01,C15,C19 ensures fresh(r0) && wfs(r0) && r0.tos == -1 && r0.env == env && !r0.IsPackage
+
+//@ func (*Stack).Size
+//@ C01 pure
+//@ C01 ensures r0 == stack.tos + 1
+
+//@ func (*Stack).Top
+//@ C01 pure
+//@ C01 ensures r0 == stack.tos
+
+//@ func (*Stack).IsEmpty
+//@ C01 pure
+//@ C01 ensures r0 == (stack.tos < 0)
+
+//@ func (*Stack).Get
+//@ requires wfs(stack)
+//@ requires n >= 0
+//@ C01 nopanic
+//@ C01 pure
+//@ C01 ensures ok: r1 == nil ==> n <= stack.tos && r0 == stack.elements[stack.tos-n]
+//@ C01 ensures underflow: r1 != nil ==> n > stack.tos
+
+//@ func (*Stack).Push
+//@ requires wfs(stack)
+//@ C01 nopanic
+//@ C01,C15,C19 modifies stack.tos, stack.elements, elems(stack.elements)
+//@ C01,C15,C19 ensures wfs(stack) && stack.tos == old(stack.tos) + 1 && stack.elements[stack.tos] == elem
+//@ C01 ensures keeps: forall(k, 0 <= k && k <= old(stack.tos) ==> stack.elements[k] == old(stack.elements[k]))
+
+//@ func (*Stack).Pop
+//@ requires wfs(stack)
+//@ C01 nopanic
+//@ C01 modifies stack.tos, stack.elements, elems(stack.elements)
+//@ C01 ensures ok: r1 == nil ==> wfs(stack) && old(stack.tos) >= 0 && stack.tos == old(stack.tos) - 1 && r0 == old(stack.elements[stack.tos])
+//@ C01 ensures keeps: r1 == nil ==> forall(k, 0 <= k && k <= stack.tos ==> stack.elements[k] == old(stack.elements[k]))
+//@ C01 ensures underflow: r1 != nil ==> old(stack.tos) < 0 && stack.tos == old(stack.tos) && len(stack.elements) == old(len(stack.elements))
+
+//@ func (*Stack).TruncateToSize
+//@ requires wfs(stack)
+//@ C01 nopanic
+//@ C01 modifies stack.tos, stack.elements, elems(stack.elements)
+//@ C01 ensures wfs(stack) && stack.tos == ite(newsize < 0, 0, newsize) - 1
+//@ C01 loop 0 invariant 0 <= i && 0 <= newsize && newsize <= len(stack.elements) && len(stack.elements) == old(len(stack.elements)) && sarr(stack.elements) == old(sarr(stack.elements))
+
+//@ func (*Stack).Clone
+//@ requires wfs(stack)
+//@ C01 nopanic
+//@ C01 pure
+//@ C01 ensures fresh(r0) && wfs(r0) && r0.tos == stack.tos && r0.env == stack.env
+//@ C01 loop 0 invariant -1 <= rangeindex && rangeindex < len(stack.elements) && len(stack.elements) == old(len(stack.elements)) && len(ret.elements) == len(stack.elements) && fresh(ret) && fresh(sarr(ret.elements)) && ret.tos == stack.tos && ret.env == stack.env
